@@ -12,6 +12,7 @@ ID=$1; TIER=${2:-quick}
 if [ "$ID" = replay ]; then exec "$VERIF/.cache/bin/vcheck" replay "$2"; fi
 build() {
   ( cd "$VERIF/engine" && cp /repo/go.sum go.sum && go build -o "$VERIF/.cache/bin/vcheck" ./cmd/vcheck ) || { echo "BUILD-ERROR property=$ID"; exit 2; }
+  ( cd /repo && go build -o "$VERIF/.cache/bin/sysl" ./cmd/sysl ) || { echo "BUILD-ERROR(sysl) property=$ID"; exit 2; }
 }
 if [ "${VERIF_NOBUILD:-}" != 1 ]; then
   # serialise builds (several checks may be started at once)
